@@ -25,14 +25,32 @@ BindFor(r, items) ==
                  \E b \in 1..Len(r.bind) : r.bind[b].name = items[j].name /\ r.bind[b].multi = items[j].multi } } |->
         LET b == CHOOSE b \in 1..Len(r.bind) : r.bind[b].name = n IN [lo |-> r.bind[b].lo, hi |-> r.bind[b].hi]]
 
+\* characters between the start of the line and offset off
+ColOf(src, off) == LET before == { i \in 1..off : src[i] = NL } IN
+                   IF before = {} THEN off ELSE off - (CHOOSE i \in before : \A j \in before : j <= i)
+SelfJudged(r, items, bind) ==
+    /\ TemplateJudged(r.raw, 1) /\ NoTabs(r.src) /\ NoTabs(r.raw)
+    /\ \A k \in 1..Len(items) :
+          (items[k].v /\ items[k].name \in DOMAIN bind) =>
+              LET b == bind[items[k].name] IN
+              HasNL(SubSeq(r.src, b.lo + 1, b.hi)) => WellIndented(r.src, b.lo, b.hi)
+\* the indentation of a line is looked for at most LookBehind characters back: the match may start within that
+\* distance of its line's start while a multi-line capture on the same line starts beyond it
+AtLookBehindBoundary(r, bind) ==
+    \E n \in DOMAIN bind : LET b == bind[n] IN
+        /\ HasNL(SubSeq(r.src, b.lo + 1, b.hi))
+        /\ ~HasNL(SubSeq(r.src, r.site + 1, b.lo))
+        /\ ColOf(r.src, r.site) <= LookBehind /\ ColOf(r.src, b.lo) >= LookBehind
+
 TplReasons(r) ==
     LET items == TemplateItems(r.raw, 1)
         bind == BindFor(r, items) IN
     (IF r.panic THEN {"panic"} ELSE {})
     \cup (IF ~TemplateJudged(r.raw, 1) \/ ~Judged(r.src, r.raw, items, bind) THEN {}
-          ELSE (IF r.out = OutP(r.src, r.raw, TemplateP(r.raw, 1), bind, r.site) THEN {} ELSE {"replacement-text"})
-               \cup (IF ~r.self THEN {}
-                     ELSE IF r.out = SubSeq(r.src, r.site + 1, r.siteEnd) THEN {} ELSE {"self-rewrite"}))
+          ELSE (IF r.out = OutP(r.src, r.raw, TemplateP(r.raw, 1), bind, r.site) THEN {} ELSE {"replacement-text"}))
+    \* "rewriting a node to itself is a no-op" is judged on lines of any length
+    \cup (IF ~r.self \/ ~SelfJudged(r, items, bind) \/ r.out = SubSeq(r.src, r.site + 1, r.siteEnd) THEN {}
+          ELSE IF AtLookBehindBoundary(r, bind) THEN {"known:lookbehind-boundary"} ELSE {"self-rewrite"})
 TplDrift(r) ==
     LET items == TemplateItems(r.raw, 1) IN
     IF r.panic \/ r.out = GenerateReplacement(r.src, r.raw, items, BindFor(r, items), r.site) THEN {} ELSE {"indent-model"}
